@@ -49,32 +49,34 @@ type UseSpec struct {
 }
 
 type Contract struct {
-	Pkg      string // package path
-	Recv     string // receiver type name without * ("" for functions)
-	Name     string
-	Variant  string // "Name/variant": an additional contract for the same function (never used at call sites)
-	Props    []string
-	Requires []*Clause
-	Ensures  []*Clause
-	Modifies []ast.Expr
-	ModText  []string
-	Loops    map[int]*LoopSpec
-	Uses     []*UseSpec
-	Asserts  []*UseSpec
-	Assumes  []*UseSpec // library facts assumed at a program point (listed in the trusted base)
-	Inline   bool
-	Iface    bool   // contract of an interface method: assumed for arbitrary implementations
-	Impl     string // "Type.Method": this function (or closure) must satisfy that interface contract
-	Lets     []*UseSpec
-	Running  []*Clause // checked and then assumed after every statement of the body
-	CallSite []*Clause // obligations at every call site, evaluated in the caller's scope with the formals bound to the arguments
-	ModAll   bool      // "modifies *": everything reachable from the receiver / pointer arguments and all ghost state may change
-	FromTemplate bool // instantiated from a methods block
-	Template bool      // "methods (*T)": default contract of every method of T without a contract of its own
-	Trusted  bool      // contract assumed, body not verified (listed in evidence)
-	Pure     bool
-	File     string
-	Line     int
+	Pkg          string // package path
+	Recv         string // receiver type name without * ("" for functions)
+	Name         string
+	Variant      string // "Name/variant": an additional contract for the same function (never used at call sites)
+	Props        []string
+	Requires     []*Clause
+	Ensures      []*Clause
+	Modifies     []ast.Expr
+	ModText      []string
+	Loops        map[int]*LoopSpec
+	Uses         []*UseSpec
+	Asserts      []*UseSpec
+	Assumes      []*UseSpec // library facts assumed at a program point (listed in the trusted base)
+	Inline       bool
+	Iface        bool   // contract of an interface method: assumed for arbitrary implementations
+	Impl         string // "Type.Method": this function (or closure) must satisfy that interface contract
+	Lets         []*UseSpec
+	Running      []*Clause // checked and then assumed after every statement of the body
+	CallSite     []*Clause // obligations at every call site, evaluated in the caller's scope with the formals bound to the arguments
+	ModAll       bool      // "modifies *": everything reachable from the receiver / pointer arguments and all ghost state may change
+	FromTemplate bool      // instantiated from a methods block
+	Template     bool      // "methods (*T)": default contract of every method of T without a contract of its own
+	UseTemplate  bool      // "usemethods": the clauses of the receiver's methods block are part of this contract
+	NoInv        []string  // parameters that are not assumed to satisfy the type invariants (the function must cope with any value)
+	Trusted      bool      // contract assumed, body not verified (listed in evidence)
+	Pure         bool
+	File         string
+	Line         int
 }
 
 func (c *Contract) Key() string {
@@ -132,7 +134,17 @@ var sawRuneStart bool
 // sawLineFns: some contract counts line feeds (nlCount / lineStart), so range loops publish the per-rune step facts.
 var sawLineFns bool
 
+// TypeInv: `typeinv T(x): expr` - every value of the named type T that enters a verified function from outside
+// (parameters, results of calls, elements of incoming slices, payloads of incoming interfaces) is assumed to
+// satisfy expr; values built inside verified code get no such assumption.
+type TypeInv struct {
+	Pkg, Type, Param string
+	Expr             ast.Expr
+	Text             string
+}
+
 type ContractSet struct {
+	TypeInvs  map[string]*TypeInv  // pkgpath.Type
 	Templates map[string]*Contract // pkg.Recv -> default contract of the methods of Recv
 	Pools     map[string]*PoolDirective
 	LangDirs  []*LangDirective
@@ -143,6 +155,7 @@ type ContractSet struct {
 }
 
 var funcHdr = regexp.MustCompile(`^func\s+(?:\(\s*\*?\s*([A-Za-z_][A-Za-z0-9_]*)\s*\)\s*)?([A-Za-z_][A-Za-z0-9_$]*(?:/[A-Za-z0-9_]+)?)\s*(?:\[([^\]]*)\])?\s*$`)
+var typeinvHdr = regexp.MustCompile(`^typeinv\s+([A-Za-z_][A-Za-z0-9_]*)\s*\(\s*([A-Za-z_][A-Za-z0-9_]*)\s*\)\s*:\s*(.*)$`)
 var methodsHdr = regexp.MustCompile(`^methods\s+\(\s*\*?\s*([A-Za-z_][A-Za-z0-9_]*)\s*\)\s*(?:\[([^\]]*)\])?\s*$`)
 var specHdr = regexp.MustCompile(`^spec\s+([A-Za-z_][A-Za-z0-9_]*)\s*\(([^)]*)\)\s*=\s*(.*)$`)
 var lemmaHdr = regexp.MustCompile(`^lemma\s+([A-Za-z_][A-Za-z0-9_]*)\s*\(([^)]*)\)\s*(?:\[([^\]]*)\])?\s*:\s*(.*)$`)
@@ -151,7 +164,7 @@ var langHdr = regexp.MustCompile(`^lang\s+([A-Za-z_][A-Za-z0-9_]*)\s*=\s*([a-z]+
 
 var poolHdr = regexp.MustCompile(`^pool\s+([A-Za-z_][A-Za-z0-9_]*)\s+(\S+)\s*:\s*(.*)$`)
 
-var clauseKeywords = []string{"methods", "callsite", "func", "spec", "lemma", "lang", "pool", "interface", "implements", "let", "running", "assume", "requires", "ensures", "modifies", "loop", "use", "assert", "inline", "trusted", "pure"}
+var clauseKeywords = []string{"usemethods", "typeinv", "noinv", "methods", "callsite", "func", "spec", "lemma", "lang", "pool", "interface", "implements", "let", "running", "assume", "requires", "ensures", "modifies", "loop", "use", "assert", "inline", "trusted", "pure"}
 
 func startsKeyword(s string) string {
 	for _, k := range clauseKeywords {
@@ -400,6 +413,22 @@ func (cs *ContractSet) parse(src, file, pkgPath string) {
 			return &Clause{Props: props, Text: text, Expr: e, Line: rc.line, File: file}
 		}
 		switch kw {
+		case "typeinv":
+			m := typeinvHdr.FindStringSubmatch(rc.text)
+			if m == nil {
+				cs.errf(file, rc.line, "bad typeinv directive %q", rc.text)
+				continue
+			}
+			e, err := parseSpecExpr(m[3])
+			if err != nil {
+				cs.errf(file, rc.line, "%v", err)
+				continue
+			}
+			if cs.TypeInvs == nil {
+				cs.TypeInvs = map[string]*TypeInv{}
+			}
+			cs.TypeInvs[pkgPath+"."+m[1]] = &TypeInv{Pkg: pkgPath, Type: m[1], Param: m[2], Expr: e, Text: m[3]}
+			cur = nil
 		case "methods":
 			m := methodsHdr.FindStringSubmatch(rc.text)
 			if m == nil {
@@ -526,6 +555,12 @@ func (cs *ContractSet) parse(src, file, pkgPath string) {
 			case "requires":
 				if c := mkClause(rest); c != nil {
 					cur.Requires = append(cur.Requires, c)
+				}
+			case "usemethods":
+				cur.UseTemplate = true
+			case "noinv":
+				for _, p := range strings.FieldsFunc(rest, func(r rune) bool { return r == ',' || r == ' ' }) {
+					cur.NoInv = append(cur.NoInv, p)
 				}
 			case "callsite":
 				// callsite requires <expr>
